@@ -596,6 +596,13 @@ impl<'a> G<'a> {
             3 => Expr::Ident("PEEK_ALL".into()),
             4 => Expr::Ident("POP_ALL".into()),
             _ => {
+                if self.cfg.wide_literals && self.rng.chance(1, 5) {
+                    // the ends of the index type (only where grammars are read, not run)
+                    const EDGE: [i32; 8] = [i32::MIN, i32::MIN + 1, i32::MAX, i32::MAX - 1, 0, -1, 65_536, -1_000_000];
+                    let a = *self.rng.pick(&EDGE);
+                    let b = if self.rng.chance(1, 3) { None } else { Some(*self.rng.pick(&EDGE)) };
+                    return Expr::PeekSlice(a, b);
+                }
                 let a = self.rng.range(-3, 3) as i32;
                 let b = if self.rng.chance(1, 3) { None } else { Some(self.rng.range(-3, 4) as i32) };
                 Expr::PeekSlice(a, b)
